@@ -98,3 +98,11 @@ Proof.
     + intro b'. unfold vcount. rewrite X. simpl. destruct (b' =? 0); reflexivity.
   - reflexivity.
 Qed.
+
+(* the bulk load of two blocks with an agglomeration {2,3 -> 7}: the run and what it answers *)
+Lemma offline_example :
+  match fsteps all_fixed f_empty (offline_ops [(0, [1; 2; 2; 0]); (5, [3; 3; 1; 2])] [(2, 7); (3, 7)]) with
+  | Ok st => (o_size st 1, o_size st 7, get_idx st 2, get_idx st 7)
+  | _ => (0, 0, None, None)
+  end = (2, 5, None, Some [((0, 2), 2); ((5, 3), 2); ((5, 2), 1)]).
+Proof. vm_compute. reflexivity. Qed.
